@@ -149,7 +149,9 @@ Alive(p) ==
   /\ pLife' = [pLife EXCEPT ![p] = IF pProx[p] THEN now ELSE @]
   /\ AbsAlive(p, Obs(WSide, RSide, pProx, ext, att))
   /\ UNCHANGED <<pProx, pLease, ext, att, wProx, rProx, wTotal, rTotal, wInc, rInc, lw, lr, cq, flip>>
-  /\ Log([a |-> "Alive", p |-> p])
+  \* how the life sign travels does not matter to the design: directly, or as a datagram of p's SPDP writer (naming the SPDP
+  \* reader or ENTITYID_UNKNOWN, with a new or a repeated sequence number); drawn for the replay
+  /\ Log([a |-> "Alive", p |-> p, wire |-> RandomElement(BOOLEAN), explicit |-> RandomElement(BOOLEAN), same |-> RandomElement(BOOLEAN)])
 
 \* DiscoveryDB::participant_cleanup + DPEventLoop::remote_participant_lost for each one removed
 RECURSIVE LoseAll(_, _, _)
